@@ -45,6 +45,9 @@ def ciscoCheckBanner : Prog :=
     "s.errUnmanaged = []error{errors.New(\"Missing banner at NetSPoC managed device\")}" .set
     (fun _ _ => [missingBanner])
 
+/-- `strings.HasSuffix(strings.ToLower(out), "password:")` -/
+def askedForPassword : Pred := .hasSuffix (.toLower (.v .out)) "password:"
+
 /-- `LoginEnable` up to (not including) the call of `checkBanner`. -/
 def ciscoLoginPre : Prog :=
   .send "WaitLogin" "\"(?i)password:|\\(yes/no.*\\)\\?\"" .wait .abort ;; outDecl ;;
@@ -56,9 +59,18 @@ def ciscoLoginPre : Prog :=
   .ite (.val "waitPrompt(pass, \">\")" (sufOut ">"))
     (.call "waitPrompt" (wpBody (.lit "enable")) ;;
      .ite (.not (.val "waitPrompt(\"enable\", \"#\")" (sufOut "#")))
-       (.call "waitPrompt" (wpBody .pass) ;;
-        .check (.not (.val "waitPrompt(pass, \"#\")" (sufOut "#"))) "abort"
-          "Authentication for enable mode failed" (.abort "Authentication for enable mode failed"))
+       -- `if !strings.HasSuffix(strings.ToLower(out), "password:") || !waitPrompt(pass, "#") { Abort }`:
+       -- `||` short-circuits, the password is sent only if the device asks for one.  The steps are
+       -- inside the call node; the guard is shown in the form printed from the same predicates.
+       (.call "waitPrompt"
+          (.ite askedForPassword
+             (wpBody .pass ;;
+              .check (.not (.val "waitPrompt(pass, \"#\")" (sufOut "#"))) "abort"
+                "Authentication for enable mode failed" (.abort "Authentication for enable mode failed"))
+             (.check (.not askedForPassword) "abort" "Authentication for enable mode failed"
+                (.abort "Authentication for enable mode failed"))) ;;
+        .note "if" (Pred.or (.not askedForPassword) (.not (.val "waitPrompt(pass, \"#\")" (sufOut "#")))).show ;;
+        .block (.note "abort" "Authentication for enable mode failed"))
        .nop)
     (.check (.not (.hasSuffix (.v .out) "#")) "abort" "Authentication failed"
       (.abort "Authentication failed")) ;;
